@@ -8,6 +8,7 @@ package main
 //  * C05/C03: two logs built from one shared entry map must not influence each other.
 
 import (
+	"bytes"
 	"context"
 	"fmt"
 	"math/rand"
@@ -395,6 +396,9 @@ func runAppendScenarios(rng *rand.Rand, n int, st *c06Stats, fail func(prop, mon
 		if !eqStrings(sortedCopy(next), headsBefore) {
 			fail("C04", "next-is-heads", "C04:next-not-heads", fmt.Sprintf("next=%v heads before=%v", next, headsBefore), caseInfo)
 		}
+		if id := l.Identity; id != nil && !bytes.Equal(e.GetClock().GetID(), id.PublicKey) {
+			fail("C04", "clock-id-is-writer", "C04:clock-id", "the new entry's clock id is not the writer's public key", caseInfo)
+		}
 		if e.GetClock().GetTime() != want {
 			fail("C04", "time-is-max-plus-one", "C04:time-not-greater", fmt.Sprintf("new entry has time %d, want max(clock, heads)+1 = %d", e.GetClock().GetTime(), want), caseInfo)
 		}
@@ -417,7 +421,13 @@ func runAppendScenarios(rng *rand.Rand, n int, st *c06Stats, fail func(prop, mon
 		for i, nm := range names {
 			opts := &ipfslog.LogOptions{ID: "L"}
 			if i != 1 {
-				opts.Clock = entry.NewLamportClock(w.idents[nm].PublicKey, base+rng.Intn(3)*i)
+				// the clock handed to NewLog only carries a time to resume from: sometimes it is the clock of an
+				// entry of ANOTHER writer (its id is that writer's key, not ours)
+				cid := w.idents[nm].PublicKey
+				if rng.Intn(2) == 0 {
+					cid = w.idents[names[(i+1)%3]].PublicKey
+				}
+				opts.Clock = entry.NewLamportClock(cid, base+rng.Intn(3)*i)
 			}
 			l, err := ipfslog.NewLog(w.api, w.idents[nm], opts)
 			if err != nil {
